@@ -23,6 +23,7 @@ def check(ctx):
     provrules.rule_attachments_are_new_entries(ctx, facts, "R1")
     provrules.rule_amend_routes(ctx, facts, "R2")
     provrules.rule_mount(ctx, facts, "R3")
+    provrules.rule_mount_scope(ctx, facts, "R3")
     provrules.rule_pairs_keep_orientation(ctx, facts, "R7")
     provrules.rule_danglings_key_unique(ctx, facts, "R8")
     from .. import scopes
